@@ -141,7 +141,10 @@ impl Property for C13 {
         heapify(&mut prog.body);
         let src = print_program(&prog, style_from(t), "let heap_str = (import! std.string.prim).append\n");
         let heap_strings = src.matches("heap_str \"").count();
-        json!({"src": src, "route": ROUTES[route].0, "from": ROUTES[route].1, "to": ROUTES[route].2, "actions": actions,
+        // a quarter of the values are module level in the source VM (they live in the heap of its
+        // global state, which the destination of an unrelated VM must not point into either)
+        let module_level = t.chance(1, 4);
+        json!({"src": src, "module_level": module_level, "route": ROUTES[route].0, "from": ROUTES[route].1, "to": ROUTES[route].2, "actions": actions,
                "features": prog.features, "heap_strings": heap_strings, "ty": crate::gen::print::print_ty(&prog.ty, &prog.decls)})
     }
     fn exec(&self, ctx: &mut WorkerCtx, case: &Value) -> Value {
@@ -173,7 +176,16 @@ impl Property for C13 {
         let mut source: Option<RootedThread> = Some(pick(from));
         let dest = pick(to);
         let src = case["src"].as_str().unwrap();
-        let r = source.as_ref().unwrap().run_expr::<gl::Opaque>("c13", src);
+        let module_level = case["module_level"] == true;
+        let r = if module_level {
+            let name = format!("c13m{}x{}", std::process::id(), ctx.cases_done);
+            match source.as_ref().unwrap().load_script(&name, src) {
+                Ok(()) => source.as_ref().unwrap().run_expr::<gl::Opaque>("c13", &format!("import! {}", name)),
+                Err(e) => Err(e),
+            }
+        } else {
+            source.as_ref().unwrap().run_expr::<gl::Opaque>("c13", src)
+        };
         let (v, ty) = match r {
             Ok((v, ty)) => (v.into_inner(), ty),
             Err(e) => {
